@@ -4,32 +4,13 @@ package main
 // Filled in by the protocol phase; until then they put a function outside reach.
 
 import (
+	"fmt"
 	"go/token"
 	"go/types"
 
 	"golang.org/x/tools/go/ssa"
 )
 
-func (e *Exec) chanRecv(fr *Frame, st State, in *ssa.UnOp) []Outcome {
-	e.fail("channel receive not supported yet")
-	return nil
-}
-func (e *Exec) chanSend(fr *Frame, st State, in *ssa.Send) []Outcome {
-	e.fail("channel send not supported yet")
-	return nil
-}
-func (e *Exec) selectOp(fr *Frame, st State, in *ssa.Select) []Outcome {
-	e.fail("select not supported yet")
-	return nil
-}
-func (e *Exec) makeChan(fr *Frame, st *State, in *ssa.MakeChan) Val {
-	e.fail("make(chan) not supported yet")
-	return nil
-}
-func (e *Exec) chanClose(fr *Frame, st State, cc *ssa.CallCommon, args []Val, pos token.Pos) []Outcome {
-	e.fail("close not supported yet")
-	return nil
-}
 func (e *Exec) makeMap(fr *Frame, st *State, in *ssa.MakeMap) Val {
 	e.fail("make(map) not supported yet")
 	return nil
@@ -76,6 +57,83 @@ func (e *Exec) externalEnv(fr *Frame, st State, fn *ssa.Function, args []Val, po
 		e.times[t[0]] = civil{Y, M, D}
 		e.assumed["assumed contract: time.Date normalises exactly the invalid civil dates (conformance: exhaustive test over day/month/year)"] = true
 		return []Outcome{{st: st, ret: t}}, true
+	case "(*sync.Mutex).Lock":
+		mu := args[0][0]
+		st = e.oblige(st, fr.fn, "lock", "not-held", pos, c.Not(e.ghost(st, gkey("held", mu), Bool)))
+		st = st.setGhost(gkey("held", mu), c.True)
+		return []Outcome{{st: st}}, true
+	case "(*sync.Mutex).Unlock":
+		mu := args[0][0]
+		st = e.oblige(st, fr.fn, "lock", "held", pos, e.ghost(st, gkey("held", mu), Bool))
+		st = st.setGhost(gkey("held", mu), c.False)
+		return []Outcome{{st: st}}, true
+	case "(*sync.WaitGroup).Add", "(*sync.WaitGroup).Done", "(*sync.WaitGroup).Wait":
+		st = e.ghostInc(st, "wg:"+fn.Name())
+		return []Outcome{{st: st}}, true
+	case "(*sync.Once).Do":
+		once := args[0][0]
+		done := e.ghost(st, gkey("once", once), Bool)
+		var outs []Outcome
+		if s1 := st.branch(done); !s1.pcFalse() {
+			outs = append(outs, Outcome{st: s1})
+		}
+		if s2 := st.branch(c.Not(done)); !s2.pcFalse() {
+			s2 = s2.setGhost(gkey("once", once), c.True)
+			f := args[1][0]
+			if cl, ok := e.closures[f]; ok {
+				for _, o := range e.callStatic(fr, s2, cl.fn, nil, cl.binds, pos) {
+					outs = append(outs, Outcome{st: o.st})
+				}
+			} else {
+				e.fail("sync.Once.Do with an unknown function value")
+			}
+		}
+		return outs, true
+	case "time.NewTicker":
+		d := args[0][0]
+		st = e.oblige(st, fr.fn, "nopanic.ticker", "", pos, c.Slt(c.Const(64, 0), d))
+		T := fn.Signature.Results().At(0).Type().(*types.Pointer).Elem()
+		s2, obj := e.alloc(st, c.Const(64, uint64(e.P.lay.nslots(T))), "ticker")
+		ch := e.newChan(&s2, "ticker.C")
+		s2.h[3] = e.store(s2.h[3], obj, ch)
+		s2 = s2.setGhost(gkey("period", ch), d)
+		s2 = e.ghostInc(s2, "nticker")
+		return []Outcome{{st: s2, ret: Val{obj}}}, true
+	case "(*time.Ticker).Stop":
+		st = e.ghostInc(st, "ntickerstop")
+		return []Outcome{{st: st}}, true
+	case "time.After":
+		d := args[0][0]
+		ch := e.newChan(&st, "after")
+		st = st.setGhost(gkey("period", ch), d)
+		st = e.ghostInc(st, "nafter")
+		return []Outcome{{st: st, ret: Val{ch}}}, true
+	case "time.AfterFunc":
+		d := args[0][0]
+		st = e.ghostInc(st, "nafterfunc")
+		st = st.setGhost("afterfunc.d", d)
+		f := args[1][0]
+		if cl, ok := e.closures[f]; ok && !hasLoopOrSelect(cl.fn) {
+			// the callback runs later, after d has elapsed: advance the ghost clock first
+			s2 := st.setGhost("clock", c.Add(e.ghost(st, "clock", BV(64)), d))
+			var outs []Outcome
+			for _, o := range e.callStatic(fr, s2, cl.fn, nil, cl.binds, pos) {
+				r := e.freshVal(fn.Signature.Results().At(0).Type(), "timer")
+				outs = append(outs, Outcome{st: o.st, ret: r})
+			}
+			return outs, true
+		}
+		return []Outcome{{st: st, ret: e.freshVal(fn.Signature.Results().At(0).Type(), "timer")}}, true
+	case "time.Sleep":
+		st = st.setGhost("clock", c.Add(e.ghost(st, "clock", BV(64)), args[0][0]))
+		st = st.setGhost("slept", c.Add(e.ghost(st, "slept", BV(64)), args[0][0]))
+		return []Outcome{{st: st}}, true
+	case "math/rand.Float64":
+		r := e.freshVal(fn.Signature.Results().At(0).Type(), "rand")
+		zero := e.fpFromBits(c.Const(64, 0))
+		one := e.fpFromBits(c.Const(64, 0x3ff0000000000000))
+		st = st.assume(c.And(c.FPop("fp.leq", Bool, zero, r[0]), c.FPop("fp.lt", Bool, r[0], one)))
+		return []Outcome{{st: st, ret: r}}, true
 	case "(time.Time).Year", "(time.Time).Month", "(time.Time).Day":
 		cv, ok := e.times[args[0][0]]
 		if !ok {
@@ -85,6 +143,43 @@ func (e *Exec) externalEnv(fr *Frame, st State, fn *ssa.Function, args []Val, po
 		return []Outcome{{st: st, ret: Val{r}}}, true
 	}
 	return nil, false
+}
+
+// socketInvoke models knxnet.Socket as part of the environment (ghost send log).
+func (e *Exec) socketInvoke(fr *Frame, st State, cc *ssa.CallCommon, recv Val, args []Val, pos token.Pos) []Outcome {
+	c := e.c
+	sock := recv[1]
+	switch cc.Method.Name() {
+	case "Send":
+		p := args[0]
+		nkey := gkey("nsend", sock)
+		n := e.ghost(st, nkey, BV(64))
+		l0 := e.ghost(st, gkey("lastsend", sock)+"#0", BV(64))
+		l1 := e.ghost(st, gkey("lastsend", sock)+"#1", BV(64))
+		same := e.ghost(st, gkey("sendsame", sock), Bool)
+		n0 := e.ghost(fr.rootEntry(e), nkey, BV(64))
+		// all payloads sent since function entry are one and the same object
+		st = st.setGhost(gkey("sendsame", sock), c.And(same, c.Or(c.Eq(n, n0), c.And(c.Eq(l0, p[0]), c.Eq(l1, p[1])))))
+		st = st.setGhost(nkey, c.Add(n, c.Const(64, 1)))
+		st = st.setGhost(gkey("lastsend", sock)+"#0", p[0])
+		st = st.setGhost(gkey("lastsend", sock)+"#1", p[1])
+		st = e.oblige(st, fr.fn, "chan", "send-nonnil", pos, c.Ne(p[0], c.Const(64, 0)))
+		err := e.freshVal(cc.Signature().Results().At(0).Type(), "senderr")
+		st = st.assume(c.Imp(c.Eq(err[0], c.Const(64, 0)), c.Eq(err[1], c.Const(64, 0))))
+		return []Outcome{{st: st, ret: err}}
+	case "Inbound":
+		return []Outcome{{st: st, ret: Val{c.Apply("sock.inbound", BV(64), sock)}}}
+	case "Close":
+		st = e.ghostInc(st, gkey("nclosesock", sock))
+		err := e.freshVal(cc.Signature().Results().At(0).Type(), "closeerr")
+		st = st.assume(c.Imp(c.Eq(err[0], c.Const(64, 0)), c.Eq(err[1], c.Const(64, 0))))
+		return []Outcome{{st: st, ret: err}}
+	case "LocalAddr":
+		r := Val{c.Apply("sock.localaddr.tag", BV(64), sock), c.Apply("sock.localaddr.word", BV(64), sock)}
+		return []Outcome{{st: st, ret: r}}
+	}
+	e.fail("knxnet.Socket method %s has no environment model", cc.Method.Name())
+	return nil
 }
 
 func (e *Exec) externalInvokeEnv(fr *Frame, st State, cc *ssa.CallCommon, recv Val, args []Val, pos token.Pos) ([]Outcome, bool) {
@@ -97,10 +192,6 @@ func (e *Exec) externalInvokeEnv(fr *Frame, st State, cc *ssa.CallCommon, recv V
 		}
 	}
 	return nil, false
-}
-func (e *Exec) goEnv(fr *Frame, st State, g *ssa.Go, fnv Val, args []Val) []Outcome {
-	e.fail("go statement not supported yet")
-	return nil
 }
 // []rune(s): assumed contract — a fresh slice of at most len(s) runes; for ASCII-only
 // strings exactly one rune per byte (stated as a quantified fact).
@@ -141,3 +232,232 @@ func (e *Exec) runesToString(fr *Frame, st *State, x Val) Val {
 	e.assumed["assumed contract: string([]rune) (UTF-8 encoding; exact for ASCII)"] = true
 	return Val{a, n}
 }
+
+// ---------- ghost state ----------
+
+// ghost returns the current value of a ghost variable, creating its (symbolic) value for
+// the current epoch on first use.
+func (e *Exec) ghost(st State, name string, sort Sort) *Term {
+	if g := st.getGhost(name); g != nil {
+		return g
+	}
+	return e.c.Var(fmt.Sprintf("g%d.%s", st.gepoch, name), sort)
+}
+
+// havocGhost forgets all ghost state (loop cut, call through a contract with ghost effects).
+func (e *Exec) havocGhost(st State) State {
+	e.gepochs++
+	st.gepoch = e.gepochs
+	st.ghost = nil
+	return st
+}
+
+func gkey(kind string, t *Term) string { return fmt.Sprintf("%s@%d", kind, t.id) }
+
+func (e *Exec) ghostInc(st State, key string) State {
+	c := e.c
+	return st.setGhost(key, c.Add(e.ghost(st, key, BV(64)), c.Const(64, 1)))
+}
+
+// ---------- channels ----------
+
+func (e *Exec) newChan(st *State, what string) *Term {
+	c := e.c
+	s2, a := e.alloc(*st, c.Const(64, 1), what)
+	s2 = s2.setGhost(gkey("closed", a), c.False)
+	s2 = s2.setGhost(gkey("nsent", a), c.Const(64, 0))
+	*st = s2
+	return a
+}
+
+func (e *Exec) makeChan(fr *Frame, st *State, in *ssa.MakeChan) Val {
+	return Val{e.newChan(st, "chan")}
+}
+
+func (e *Exec) recordSend(st State, ch *Term, ET types.Type, v Val) State {
+	st = e.ghostInc(st, gkey("nsent", ch))
+	for i, t := range v {
+		st = st.setGhost(fmt.Sprintf("%s#%d", gkey("lastsent", ch), i), t)
+	}
+	return st
+}
+
+// recvValue yields the outcomes of a receive: a value the environment may deliver, or
+// (closed) the zero value.
+func (e *Exec) recvValue(st State, ch *Term, ET types.Type, pos token.Pos) (open State, v Val, closed State, z Val) {
+	c := e.c
+	v = e.freshVal(ET, "recv")
+	open = e.assumeValid(st, ET, v, true)
+	// values travelling on channels of pointers are non-nil (checked at every send)
+	if _, ok := ET.Underlying().(*types.Pointer); ok {
+		open = open.assume(c.Ne(v[0], c.Const(64, 0)))
+	}
+	if it, ok := ET.Underlying().(*types.Interface); ok && it.NumMethods() > 0 {
+		open = open.assume(c.Ne(v[0], c.Const(64, 0)))
+	}
+	closed = st
+	z = e.zeroVal(ET)
+	return
+}
+
+func (e *Exec) chanRecv(fr *Frame, st State, in *ssa.UnOp) []Outcome {
+	c := e.c
+	ch := e.operand(fr, &st, in.X)[0]
+	ET := in.X.Type().Underlying().(*types.Chan).Elem()
+	open, v, closed, z := e.recvValue(st, ch, ET, in.Pos())
+	if in.CommaOk {
+		return []Outcome{
+			{st: open.branch(c.Fresh("recv.open", Bool)), ret: append(append(Val{}, v...), c.True)},
+			{st: closed, ret: append(append(Val{}, z...), c.False)},
+		}
+	}
+	if len(v) == 0 {
+		return []Outcome{{st: open, ret: v}}
+	}
+	return []Outcome{{st: open, ret: v}, {st: closed, ret: z}}
+}
+
+func (e *Exec) sendObligations(st State, fr *Frame, ch *Term, ET types.Type, v Val, pos token.Pos) State {
+	c := e.c
+	st = e.oblige(st, fr.fn, "nopanic.chan", "send-on-closed", pos, c.Not(e.ghost(st, gkey("closed", ch), Bool)))
+	if _, ok := ET.Underlying().(*types.Pointer); ok {
+		st = e.oblige(st, fr.fn, "chan", "nonnil", pos, c.Ne(v[0], c.Const(64, 0)))
+	}
+	if it, ok := ET.Underlying().(*types.Interface); ok && it.NumMethods() > 0 {
+		st = e.oblige(st, fr.fn, "chan", "nonnil", pos, c.Ne(v[0], c.Const(64, 0)))
+	}
+	return st
+}
+
+func (e *Exec) chanSend(fr *Frame, st State, in *ssa.Send) []Outcome {
+	ch := e.operand(fr, &st, in.Chan)[0]
+	v := e.operand(fr, &st, in.X)
+	ET := in.Chan.Type().Underlying().(*types.Chan).Elem()
+	st = e.sendObligations(st, fr, ch, ET, v, in.Pos())
+	st = e.recordSend(st, ch, ET, v)
+	return []Outcome{{st: st}}
+}
+
+func (e *Exec) selectOp(fr *Frame, st State, in *ssa.Select) []Outcome {
+	c := e.c
+	// result tuple: (index int, recvOk bool, r_0 ... r_n-1) with one r per receive state
+	var recvTypes []types.Type
+	for _, s := range in.States {
+		if s.Dir == types.RecvOnly {
+			recvTypes = append(recvTypes, s.Chan.Type().Underlying().(*types.Chan).Elem())
+		}
+	}
+	mk := func(idx int, ok *Term, which int, val Val) Val {
+		out := Val{c.Const(64, uint64(int64(idx))), ok}
+		k := 0
+		for _, s := range in.States {
+			if s.Dir != types.RecvOnly {
+				continue
+			}
+			if k == which {
+				out = append(out, val...)
+			} else {
+				out = append(out, e.zeroVal(recvTypes[k])...)
+			}
+			k++
+		}
+		return out
+	}
+	var outs []Outcome
+	rk := 0
+	for i, s := range in.States {
+		ch := e.operand(fr, &st, s.Chan)[0]
+		ET := s.Chan.Type().Underlying().(*types.Chan).Elem()
+		choice := c.Fresh(fmt.Sprintf("select.case%d", i), Bool)
+		if s.Dir == types.RecvOnly {
+			open, v, closed, z := e.recvValue(st, ch, ET, in.Pos())
+			outs = append(outs, Outcome{st: open.branch(choice), ret: mk(i, c.True, rk, v)})
+			outs = append(outs, Outcome{st: closed.branch(choice), ret: mk(i, c.False, rk, z)})
+			rk++
+		} else {
+			v := e.operand(fr, &st, s.Send)
+			s2 := e.sendObligations(st.branch(choice), fr, ch, ET, v, in.Pos())
+			s2 = e.recordSend(s2, ch, ET, v)
+			outs = append(outs, Outcome{st: s2, ret: mk(i, c.False, -1, nil)})
+		}
+	}
+	if !in.Blocking {
+		outs = append(outs, Outcome{st: st.branch(c.Fresh("select.default", Bool)), ret: mk(-1, c.False, -1, nil)})
+	}
+	return outs
+}
+
+func (e *Exec) chanClose(fr *Frame, st State, cc *ssa.CallCommon, args []Val, pos token.Pos) []Outcome {
+	c := e.c
+	ch := args[0][0]
+	st = e.oblige(st, fr.fn, "nopanic.chan", "close-of-closed", pos, c.Not(e.ghost(st, gkey("closed", ch), Bool)))
+	st = st.setGhost(gkey("closed", ch), c.True)
+	st = e.ghostInc(st, gkey("nclose", ch))
+	return []Outcome{{st: st}}
+}
+
+// ---------- goroutines ----------
+
+func hasLoopOrSelect(fn *ssa.Function) bool {
+	for _, b := range fn.Blocks {
+		if isLoopHeader(b) {
+			return true
+		}
+	}
+	return false
+}
+
+// goEnv: a spawned function without loops is run to completion in place (assumption: it is
+// eventually scheduled and its blocking operations eventually complete); spawning a
+// long-running worker is only logged (ghost counter per function).
+func (e *Exec) goEnv(fr *Frame, st State, g *ssa.Go, fnv Val, args []Val) []Outcome {
+	cc := g.Common()
+	var fn *ssa.Function
+	var binds []Val
+	switch v := cc.Value.(type) {
+	case *ssa.Function:
+		fn = v
+	case *ssa.MakeClosure:
+		fn = v.Fn.(*ssa.Function)
+	}
+	if fn == nil && fnv != nil {
+		if cl, ok := e.closures[fnv[0]]; ok {
+			fn, binds = cl.fn, cl.binds
+		}
+	}
+	if cl, ok := e.closures[e.maybe(fnv)]; ok && fn != nil {
+		binds = cl.binds
+	}
+	if cc.IsInvoke() || fn == nil {
+		e.fail("go statement with a dynamic callee")
+	}
+	name := shortFn(fn.String())
+	st = e.ghostInc(st, "nspawn:"+name)
+	for i, a := range args {
+		for j, t := range a {
+			st = st.setGhost(fmt.Sprintf("spawnarg:%s#%d.%d", name, i, j), t)
+		}
+	}
+	if !e.P.isRepoFunc(fn) || hasLoopOrSelect(fn) || e.inStack(fr, fn) {
+		e.assumed["go "+name+": spawn is logged, the worker is verified separately"] = true
+		return []Outcome{{st: st}}
+	}
+	e.assumed["spawned goroutines without loops are run to completion in place (eventually scheduled)"] = true
+	e.stack = append(e.stack, fn)
+	outs := e.execFn(fn, args, binds, st, fr.depth+1, fr)
+	e.stack = e.stack[:len(e.stack)-1]
+	var res []Outcome
+	for _, o := range outs {
+		res = append(res, Outcome{st: o.st})
+	}
+	return res
+}
+
+func (e *Exec) maybe(v Val) *Term {
+	if len(v) > 0 {
+		return v[0]
+	}
+	return nil
+}
+
+func (fr *Frame) rootEntry(e *Exec) State { return e.rootEntrySt }
